@@ -137,8 +137,11 @@ def free_cases(ctx, count, nmax):
     out = []
     for _ in range(count):
         n = rng.randint(5, nmax)
-        par = [-1] + [rng.randrange(0, i) for i in range(1, n)]
+        style = rng.random()          # from bushy to chain-like (long root-to-tip paths)
+        par = [-1] + [(rng.randrange(0, i) if rng.random() < style else i - 1) for i in range(1, n)]
         order = list(range(n)); rng.shuffle(order)          # row k holds abstract node order[k]
+        if rng.random() < 0.2:
+            order = list(range(n))[::-1]                    # tip first
         row_of = {v: k for k, v in enumerate(order)}
         op = rng.choice(["sort_table", "read_sorted", "sort_tree"])
         if op == "sort_tree":
